@@ -93,6 +93,8 @@ type Func struct {
 	Params   []Param  `json:"params,omitempty"`
 	Results  []Result `json:"results,omitempty"`
 	HasErr   bool     `json:"has_err,omitempty"`
+	ErrFirst bool     `json:"err_first,omitempty"` // the error result is declared first instead of last (constructors / decorators)
+	Reenter  bool     `json:"reenter,omitempty"`   // constructor body calls Invoke for its own first result (re-entrant user code)
 	Variadic bool     `json:"variadic,omitempty"`
 
 	// Provide options.
@@ -209,16 +211,22 @@ func (f *Func) String() string {
 		b.WriteString(", ...")
 	}
 	b.WriteString(") -> (")
+	if f.HasErr && f.ErrFirst {
+		b.WriteString("error, ")
+	}
 	for i, r := range f.Results {
 		if i > 0 {
 			b.WriteString(", ")
 		}
 		b.WriteString(r.String())
 	}
-	if f.HasErr {
+	if f.HasErr && !f.ErrFirst {
 		b.WriteString(", error")
 	}
 	b.WriteString(")")
+	if f.Reenter {
+		b.WriteString(" Reenter")
+	}
 	if f.OptName != "" {
 		fmt.Fprintf(&b, " Name(%s)", f.OptName)
 	}
